@@ -659,3 +659,17 @@ Section Leaves.
 End Leaves.
 
 
+
+(* ------------------------------------------------------------------------------------------ *)
+(* Part 4 — the generated file: C01's [assemble] over the composed rendering                     *)
+(* ------------------------------------------------------------------------------------------ *)
+Require Gengo.Model.GenFile.
+
+(* genfile: every Render call of a generator goes into one body buffer through one tracker (fresh per file);
+   WriteToFile then assembles header, package clause, the import block of THAT tracker and the body.
+   [pkg] = the package's name, [self] = its path, [gen] = the generator's name. *)
+Definition cfile {F : Type} (fzero : F -> bool) (ffmt gfmt : VL.fkind -> F -> bytes) (fbig : F -> bool)
+    (quote : bytes -> bytes) (cbq : bytes -> bool) (pre : list bytes) (std : option Tk.tracker)
+    (self : bytes) (fx6 : bool) (pkg gen : bytes) (frags : list (@csnip F)) : res bytes :=
+  let! (body, e') := crender_all fzero ffmt gfmt fbig quote cbq (pick_c03 pre std) self fx6 frags [] in
+  Ok (Gengo.Model.GenFile.assemble pkg gen e' body).
